@@ -5,7 +5,7 @@
    runs).  A result is (error or None, the tree afterwards).
    Statements only; proofs in Proofs/FsProofs.v. *)
 From N2 Require Import Base.Base Model.Fs.
-From N2 Require Import Proofs.FsProofs.
+From N2 Require Import Proofs.FsProofs Proofs.FsWf.
 
 (* when it reports success, the parent of every output - whatever the spelling: nested, shared
    between outputs, through "..", absolute - is a directory *)
@@ -57,3 +57,30 @@ Print Assumptions C16_output_dirs_example.
 Theorem C16_output_dirs_blocked_example : create_parent_dirs ex_fs ex_cwd [ s [47;102;47;100;47;111] ] = (Some ENOTDIR, ex_fs).
 Proof. exact ex_create_blocked. Qed.
 Print Assumptions C16_output_dirs_blocked_example.
+
+(* when it succeeds and when not (Proofs/FsWf.v): on a well-formed tree (every entry has a directory
+   above it), from a working directory that exists, for output names without "." / ".." components
+   left in their directory part, create_parent_dirs succeeds unless a regular file sits where one of
+   the directories has to be - [clear_path fs cwd d]: no "."/".." in d and no regular file at any
+   prefix of d's location *)
+Theorem C16_output_dirs_succeed_unless_blocked : forall fs cwd outs, fs_wf fs -> node_at fs cwd = Some KDir -> (forall o d, In o outs -> lp_parent (path_new o) = Some d -> clear_path fs cwd d) -> exists fs', create_parent_dirs fs cwd outs = (None, fs').
+Proof. exact create_parent_dirs_succeeds. Qed.
+Print Assumptions C16_output_dirs_succeed_unless_blocked.
+
+Theorem C16_output_dirs_failure_means_blocked : forall fs cwd outs e fs', fs_wf fs -> node_at fs cwd = Some KDir -> create_parent_dirs fs cwd outs = (Some e, fs') -> ~ (forall o d, In o outs -> lp_parent (path_new o) = Some d -> clear_path fs cwd d).
+Proof. exact create_parent_dirs_failure_means_blocked. Qed.
+Print Assumptions C16_output_dirs_failure_means_blocked.
+
+Theorem C16_create_dir_all_succeeds_unless_blocked : forall fs cwd d, fs_wf fs -> node_at fs cwd = Some KDir -> clear_path fs cwd d -> exists fs', create_dir_all fs cwd d = (None, fs').
+Proof. exact create_dir_all_succeeds. Qed.
+Print Assumptions C16_create_dir_all_succeeds_unless_blocked.
+
+(* well-formedness is kept, so the premise holds again for the next step *)
+Theorem C16_create_dir_all_keeps_wf : forall fs cwd p e fs', fs_wf fs -> node_at fs cwd = Some KDir -> create_dir_all fs cwd p = (e, fs') -> fs_wf fs'.
+Proof. exact cda_wf. Qed.
+Print Assumptions C16_create_dir_all_keeps_wf.
+
+(* the premises are met by the example tree and the directory a/b of the example outputs *)
+Theorem C16_output_dirs_premises_example : fs_wf ex_fs /\ clear_path ex_fs ex_cwd (mkL false [s [97]; s [98]]).
+Proof. exact (conj ex_wf ex_clear). Qed.
+Print Assumptions C16_output_dirs_premises_example.
